@@ -492,9 +492,6 @@ func (c *changeCache) DocChanged(event sgbucket.FeedEvent, docType DocumentType)
 	// If one of these sequences represents a removal from a channel then set the LogEntry removed flag
 	// and the set of channels it was removed from
 	currentSequence := syncData.Sequence
-	if len(syncData.UnusedSequences) > 0 {
-		currentSequence = syncData.UnusedSequences[0]
-	}
 
 	if len(syncData.RecentSequences) > 0 {
 		nextSequence := c.getNextSequence()
